@@ -84,6 +84,16 @@ def run(ctx):
     xs2 = strs(2, 2)
     # ---- single machines: relational semantics
     ts = [F.rand_fst(ctx.rng, nA=nA, nB=nB) for _ in range(n)]
+    for t in ts[::3]:   # parallel arcs between one pair of states that agree on one tape and differ on the other
+        if t["arcs"]:
+            i_, a_, b_, j_, w_ = ctx.rng.choice(t["arcs"])
+            if a_ is not None and b_ is not None:
+                t["arcs"].append([i_, a_, 1 - b_, j_, "1/9"])
+                t["arcs"].append([i_, 1 - a_, b_, j_, "1/11"])
+                out_ = {}
+                for p_, _, _, _, w2 in t["arcs"]:
+                    out_[p_] = out_.get(p_, Fraction(0)) + Fraction(w2)
+                t["arcs"] = [[p_, x_, y_, q_, (F.fs(Fraction(w2) * Fraction(4, 5) / out_[p_]) if out_[p_] >= Fraction(9, 10) else w2)] for p_, x_, y_, q_, w2 in t["arcs"]]
     tab = WTable(ctx, "trel")
     plan = []
     for i, t in enumerate(ts):
@@ -126,6 +136,53 @@ def run(ctx):
                     ref = tab.get((i, tuple(x), tuple(y)))
                     if not close_enough(dec_val(enc), ref, rel=1e-9):
                         viol(ctx, f"fst:{name}", f"{name}: ({x}, {y}) gives {dec_val(enc)}; f(x, y) = {ref}", {"kind": "fst", "op": name, "t": t, "x": x, "y": y, "observed": str(dec_val(enc)), "expected": str(ref)})
+            # projections: the automaton obtained by dropping one tape, evaluated by the exact path-sum oracle
+            for axis, key in ((0, "project0"), (1, "project1")):
+                if key not in q["ok"]:
+                    continue
+                pm = {"nT": 2, "init": t["init"], "final": t["final"], "arcs": [[i_, (a_ if axis == 0 else b_), j_, w_] for i_, a_, b_, j_, w_ in t["arcs"]]}
+                for (x, y), enc in zip(pairs, q["ok"][key]):
+                    s_ = x if axis == 0 else y
+                    try:
+                        ref = F.wfsa_oracle(pm, s_)
+                    except ZeroDivisionError:
+                        continue
+                    ctx.cov["oracle_cases"] += 1
+                    if not close_enough(dec_val(enc), ref, rel=1e-9):
+                        viol(ctx, f"fst:{key}", f"project({axis})({s_}) = {dec_val(enc)}; the sum over the other tape is {ref}", {"kind": "fst", "op": key, "t": t, "x": x, "y": y, "observed": str(dec_val(enc)), "expected": str(ref)})
+    # ---- machines with eps:eps cycles through two or more states (unequal weights): f(x, y) vs the exact oracle
+    cyc = []
+    while len(cyc) < (12 if quick else 100):
+        t = F.rand_fst(ctx.rng, n=ctx.rng.randint(2, 3), nA=nA, nB=nB, narcs=ctx.rng.randint(2, 5), no_epseps_cycle=False)
+        p_, q_ = ctx.rng.sample(sorted(F.fst_states(t)) + [7, 8], 2)
+        t["arcs"] += [[p_, None, None, q_, "1/3"], [q_, None, None, p_, "1/5"]]
+        if t["init"]:
+            t["arcs"].append([t["init"][0][0], None, None, p_, "1/4"])
+        if t["final"]:
+            t["arcs"].append([q_, ctx.rng.randrange(nA), ctx.rng.randrange(nB), t["final"][0][0], "1/2"])
+        out_ = {}
+        for s_, _, _, _, w2 in t["arcs"]:
+            out_[s_] = out_.get(s_, Fraction(0)) + Fraction(w2)
+        t["arcs"] = [[s_, x_, y_, d_, (F.fs(Fraction(w2) * Fraction(3, 5) / out_[s_]) if out_[s_] >= Fraction(7, 10) else w2)] for s_, x_, y_, d_, w2 in t["arcs"]]
+        cyc.append(t)
+    cres = run_w([{"queries": [{"op": "fst_call", "t": t, "pairs": [(x, y) for x in xs2[:5] for y in xs2[:5]], "timeout": 30}]} for t in cyc])
+    for t, r in zip(cyc, cres):
+        ctx.dist("fst:eps-eps-cycle")
+        q = r[0]
+        if "err" in q:
+            viol(ctx, f"fst_call:cyclic-error:{q['err'][:30]}", f"f(x, y) raised {q['err']} on a machine with an eps:eps cycle", {"kind": "fst-error", "op": "fst_call", "t": t, "error": q["err"]})
+            continue
+        for (x, y), enc in zip([(x, y) for x in xs2[:5] for y in xs2[:5]], q["ok"]):
+            try:
+                ref = F.fst_oracle(t, x, y)
+            except ZeroDivisionError:
+                continue
+            ctx.cov["oracle_cases"] += 1
+            ctx.count_case(("eps-eps", json.dumps(t), tuple(x), tuple(y)), nontrivial=ref != 0)
+            if not close_enough(dec_val(enc), ref, rel=1e-9):
+                viol(ctx, "fst_call:eps-eps-cycle", f"f({x}, {y}) = {dec_val(enc)} on a machine with an eps:eps cycle through two states; the sum over accepting paths is {ref}",
+                     {"kind": "fst", "op": "fst_call", "t": t, "x": x, "y": y, "observed": str(dec_val(enc)), "expected": str(ref)})
+                break
     # ---- composition
     m = 60 if quick else 500
     ctab = WTable(ctx, "compose", CIMPORTS)
